@@ -3,7 +3,7 @@
 import random
 
 from .. import aegen, boot
-from ..result import Result
+from ..result import CaseTimeout, Result, deadline
 
 ID = 'C09'
 LEVEL = 'exploration'
@@ -25,6 +25,7 @@ FLOORS = {
     'thorough': {'evaluations': 30000, 'nontrivial': 3000},
 }
 BUDGET = {'quick': 22.0, 'thorough': 420.0}
+CASE_DEADLINE = 20.0  # bounded-progress form of 'construction terminates' (10^4 x the typical cost)
 
 
 def plan(tier, seed):
@@ -164,8 +165,13 @@ def run_case(rng, root, res, real_dot=False):
         max_svs=rng.choice([1, 2, 3]),
         max_vals=rng.choice([1, 2, 3]),
     )
-    facs = aegen.load(spec, root)
-    ref, bad = check_engine(spec, facs, res, real_dot)
+    ref = aegen.Reference(spec)
+    try:
+        with deadline(CASE_DEADLINE):
+            facs = aegen.load(spec, root)
+            ref, bad = check_engine(spec, facs, res, real_dot)
+    except CaseTimeout:
+        bad = [('construct-terminates', f'graph construction did not finish within {CASE_DEADLINE}s (typical: 1 ms)')]
     res.count('evaluations')
     res.see('shapes', ref.shape_hash())
     if any(ref.depth(t) >= 2 for t in ref.algs):
@@ -231,8 +237,12 @@ def replay(witness):
     res = Result()
     root = boot.scratch('c09r')
     spec = witness['spec']
-    facs = aegen.load(spec, root)
-    _ref, bad = check_engine(spec, facs, res)
+    try:
+        with deadline(CASE_DEADLINE):
+            facs = aegen.load(spec, root)
+            _ref, bad = check_engine(spec, facs, res)
+    except CaseTimeout:
+        bad = [('construct-terminates', f'graph construction did not finish within {CASE_DEADLINE}s (typical: 1 ms)')]
     for clause, detail in bad:
         res.violation(clause, detail, witness, mechanism='C09/' + clause)
     return res
